@@ -12,12 +12,13 @@
 #include "verif_ctx.h"
 #include "myth_sync_func.h"
 
-struct myth_running_env ENV;
+struct myth_running_env ENVS2[2];
+#define ENV (ENVS2[0])       /* ENVS2[1]: the worker a thread may find itself on after a yield */
 struct myth_thread TH0, TH1;
 myth_uncond_t U;
 
 static void env_setup(void) {
-  g_envs = &ENV; g_envs_sz = 1; g_worker_rank = 0; ENV.rank = 0;
+  g_envs = ENVS2; g_envs_sz = 1; g_worker_rank = 0; ENV.rank = 0;
   ENV.this_thread = &TH0; TH0.env = &ENV;
 }
 
@@ -65,12 +66,19 @@ static inline void verif_rd_th(volatile void * p) {
   if (U.th == 0 && (nondet_bool() || g_polls >= SPIN_K)) { U.th = &TH0; g_arrived = 1; }
 }
 void push_contract(myth_thread_queue_t q, myth_thread_t th)
-  __CPROVER_requires(q == &ENV.runnable_q && th == &TH0 && g_pushed == 0 && "signal hands exactly the waiter over, once, on the signaller's run queue")
+  __CPROVER_requires(q == &ENVS2[g_worker_rank].runnable_q && th == &TH0 && g_pushed == 0 && "signal hands exactly the waiter over, once, on the run queue of the worker the signaller is running on NOW")
   __CPROVER_requires(U.th == 0 && "the word is cleared BEFORE the waiter is published (a resumed waiter may wait again at once)")
-  __CPROVER_requires(TH0.env == &ENV && "the waiter is bound to the signalling worker before it becomes stealable")
+  __CPROVER_requires(TH0.env == &ENVS2[g_worker_rank] && "the waiter is bound to the signalling worker before it becomes stealable")
   __CPROVER_assigns(g_pushed)
   __CPROVER_ensures(g_pushed == 1);
 
+/* should the signaller yield while it spins for a late waiter: it may be resumed on another worker */
+int verif_yield_sig(void) {
+  if (nondet_bool()) { g_envs_sz = 2; ENVS2[1].rank = 1; g_worker_rank = 1; }
+  return 0;
+}
+int (*keep_yield_sig)(void) = myth_yield_body;
+int (*keep_yield_sig2)(void) = verif_yield_sig;
 void h_uncond_signal(void) {
   env_setup();
   TH0.env = 0;
